@@ -169,7 +169,10 @@ def samples (box : Box) (cutoff : Rat) (inside : List Point) : List Sample :=
 
 def sumRat (l : List Rat) : Rat := l.foldr (· + ·) 0
 
-/-- weighted histogram value of one bin: `Σ 1/arc`; `none` = NaN as soon as one `arc` is NaN -/
+/-- weighted histogram value of one bin: `Σ 1/arc`; `none` = NaN as soon as one `arc` OF THIS BIN
+is NaN (static.py `_weighted_histogram`, as repaired by
+repo-fixes/C19-paircorr-nan-weight-own-bin.patch; the unrepaired `np.histogram(weights=…)`
+propagates a NaN into every higher bin through its cumulative sum) -/
 def binSum (arc : Rat → List Rat → Option Rat) (dr : Rat) (ss : List Sample) (k : Nat) :
     Option Rat :=
   let ws := (ss.filter fun s => inBin dr k s.1).map fun s => arc s.1 s.2
